@@ -27,6 +27,8 @@ Mirrors the Go code of /repo **as it is now** (after the `fix:` commits), functi
 | `types/types.go        appendKey` type arm + `appendTypeParamKey`            | `tyKey`, `tyKeys`         |
 | `types/tupletype.go    TupleType.ToKey`      (given-or-actual size)            | `tyKey (.tup …)`             |
 | `XxxType.Equals / Parameters` for Any Undef String Integer Float Enum Array Variant Tuple Optional Type | `tyEq`, `tyEqR`, `tyKey` |
+| the same for Default Unit Scalar ScalarData Numeric Binary Data RichData SemVerRange (`.nul`), Boolean[v], Collection[size], NotUndef Sensitive Iterable Iterator (`.un`), String[size] / String['v'] (`NewStringType`, `vcStringType.ToKey`), Regexp[/p/], Pattern (unordered, like Enum), TypeReference | `tyEq`, `tyKey`, `wrapParam`, `mkStr` |
+| `OptionalType.Parameters / NotUndefType.Parameters`: a wrapped `String['v']` is handed out as the STRING `'v'` | `wrapParam true` |
 | `px/equality.go        IncludesAll` (the *other* list's member receives the call) | `anyL`, `inclR`        |
 | `types/types.go        px.ToKey`                                              | `key`                        |
 | `types/uritype.go      UriValue.Equals / ToKey` (`URL().String()`)            | `veq`, `kb` (`.uri`)         |
@@ -144,6 +146,16 @@ def maxInt : Int := 9223372036854775807
 def maxFloatBits : Nat := 9218868437227405311        -- math.MaxFloat64
 def negMaxFloatBits : Nat := 18442240474082181119    -- -math.MaxFloat64
 
+/-- the types without parameters (`XxxType.Equals` is a bare type assertion; `Data` / `RichData` are the two built-in aliases) -/
+inductive NulK where
+  | dflt | unit | scalar | scalarData | numeric | binary | data | richData | semverRange
+  deriving DecidableEq, Inhabited
+
+/-- the types that wrap one type parameter, absent when it is `Any` (like Optional and Type) -/
+inductive UnK where
+  | notUndef | sensitive | iterable | iterator
+  deriving DecidableEq, Inhabited
+
 inductive Ty where
   | any | undef | str
   | int (lo hi : Int)
@@ -154,6 +166,16 @@ inductive Ty where
   | tup (ts : List Ty) (size : Option (Int × Int))
   | opt (t : Ty)
   | typ (t : Ty)
+  | nul (k : NulK)
+  | bool (v : Option Bool)              -- `Boolean`, `Boolean[true]`, `Boolean[false]`
+  | coll (lo hi : Int)                  -- `Collection[size]`
+  | un (k : UnK) (t : Ty)
+  | strSize (lo hi : Int)               -- `scStringType`: `String[lo, hi]`
+  | strVal (v : Bytes)                  -- `vcStringType`: `String['v']`
+  | rx (pat : Bytes)                    -- `Regexp[/pat/]` (`[]` = the default)
+  | pattern (pats : List Bytes)         -- `Pattern[/a/, /b/]`
+  | tref (s : Bytes)                    -- `TypeReference['s']`
+  | semverT (orig : Bytes) (rs : List ARange)   -- `SemVer[range]`: the string the range was parsed from, and the parsed ranges
   deriving Inhabited
 
 def Ty.isAny : Ty → Bool
@@ -165,6 +187,18 @@ def Ty.name : Ty → Bytes
   | .int _ _ => [0x49, 0x6e, 0x74, 0x65, 0x67, 0x65, 0x72] | .flt _ _ => [0x46, 0x6c, 0x6f, 0x61, 0x74] | .enum _ _ => [0x45, 0x6e, 0x75, 0x6d]
   | .arr _ _ _ => [0x41, 0x72, 0x72, 0x61, 0x79] | .var _ => [0x56, 0x61, 0x72, 0x69, 0x61, 0x6e, 0x74] | .tup _ _ => [0x54, 0x75, 0x70, 0x6c, 0x65]
   | .opt _ => [0x4f, 0x70, 0x74, 0x69, 0x6f, 0x6e, 0x61, 0x6c] | .typ _ => [0x54, 0x79, 0x70, 0x65]
+  | .nul .dflt => [0x44, 0x65, 0x66, 0x61, 0x75, 0x6c, 0x74] | .nul .unit => [0x55, 0x6e, 0x69, 0x74]
+  | .nul .scalar => [0x53, 0x63, 0x61, 0x6c, 0x61, 0x72] | .nul .scalarData => [0x53, 0x63, 0x61, 0x6c, 0x61, 0x72, 0x44, 0x61, 0x74, 0x61]
+  | .nul .numeric => [0x4e, 0x75, 0x6d, 0x65, 0x72, 0x69, 0x63] | .nul .binary => [0x42, 0x69, 0x6e, 0x61, 0x72, 0x79]
+  | .nul .data => [0x44, 0x61, 0x74, 0x61] | .nul .richData => [0x52, 0x69, 0x63, 0x68, 0x44, 0x61, 0x74, 0x61]
+  | .nul .semverRange => [0x53, 0x65, 0x6d, 0x56, 0x65, 0x72, 0x52, 0x61, 0x6e, 0x67, 0x65]
+  | .bool _ => [0x42, 0x6f, 0x6f, 0x6c, 0x65, 0x61, 0x6e] | .coll _ _ => [0x43, 0x6f, 0x6c, 0x6c, 0x65, 0x63, 0x74, 0x69, 0x6f, 0x6e]
+  | .un .notUndef _ => [0x4e, 0x6f, 0x74, 0x55, 0x6e, 0x64, 0x65, 0x66] | .un .sensitive _ => [0x53, 0x65, 0x6e, 0x73, 0x69, 0x74, 0x69, 0x76, 0x65]
+  | .un .iterable _ => [0x49, 0x74, 0x65, 0x72, 0x61, 0x62, 0x6c, 0x65] | .un .iterator _ => [0x49, 0x74, 0x65, 0x72, 0x61, 0x74, 0x6f, 0x72]
+  | .strSize _ _ => [0x53, 0x74, 0x72, 0x69, 0x6e, 0x67] | .strVal _ => [0x53, 0x74, 0x72, 0x69, 0x6e, 0x67]
+  | .rx _ => [0x52, 0x65, 0x67, 0x65, 0x78, 0x70] | .pattern _ => [0x50, 0x61, 0x74, 0x74, 0x65, 0x72, 0x6e]
+  | .tref _ => [0x54, 0x79, 0x70, 0x65, 0x52, 0x65, 0x66, 0x65, 0x72, 0x65, 0x6e, 0x63, 0x65]
+  | .semverT _ _ => [0x53, 0x65, 0x6d, 0x56, 0x65, 0x72]
 
 /-- `utils.ContainsAllStrings(a, b)`: every member of `b` occurs in `a` -/
 def containsAll (a b : List Bytes) : Bool := b.all fun s => a.contains s
@@ -198,6 +232,24 @@ def unorderedParams (keys : List Bytes) : Bytes := ekInt keys.length ++ frames (
 /-- the element keys of the parameters of an Enum: the marked strings, then `true` when it is case-insensitive -/
 def enumKeys (ci : Bool) (vals : List Bytes) : List Bytes := vals.map (strMark ++ ·) ++ (if ci then [boolKey true] else [])
 
+/-- the key of a Regexp VALUE (`Regexp.ToKey`): what a Regexp / Pattern type has as a parameter -/
+def rxKey (p : Bytes) : Bytes := [1, 0x72] ++ p
+
+/-- `semver.MatchAll`: the one range `>=0.0.0-` (the range of the default SemVer type) -/
+def matchAllR : List ARange := [.simple ⟨.ge, verMin⟩]
+
+/-- `TypeReference`'s default type string -/
+def unresolvedRef : Bytes :=
+  [0x55, 0x6e, 0x72, 0x65, 0x73, 0x6f, 0x6c, 0x76, 0x65, 0x64, 0x52, 0x65, 0x66, 0x65, 0x72, 0x65, 0x6e, 0x63, 0x65]
+
+/-- the one parameter of a wrapper type, given the key `k` of the wrapped type `t`: absent when `t` is Any;
+    `OptionalType.Parameters` / `NotUndefType.Parameters` (`quirk`) hand out the STRING `'v'` for a wrapped `String['v']` -/
+def wrapParam (quirk : Bool) (t : Ty) (k : Bytes) : Bytes :=
+  if t.isAny then []
+  else match quirk, t with
+    | true, .strVal v => if v.isEmpty then frame k else ekStr v
+    | _, _ => frame k
+
 /-- the size a Tuple's `Equals` and `ToKey` look at: the given one, else the number of types -/
 def goaSize (n : Nat) : Option (Int × Int) → Int × Int
   | some s => s
@@ -222,8 +274,19 @@ def tyKey : Ty → Bytes
   | .var ts => [1, 0x74] ++ ekStr [0x56, 0x61, 0x72, 0x69, 0x61, 0x6e, 0x74] ++ unorderedParams (tyKeyL ts)
   | .tup ts size =>
       [1, 0x74] ++ ekStr [0x54, 0x75, 0x70, 0x6c, 0x65] ++ tyKeys ts ++ sizeParams (goaSize ts.length size).1 (goaSize ts.length size).2
-  | .opt t => [1, 0x74] ++ ekStr [0x4f, 0x70, 0x74, 0x69, 0x6f, 0x6e, 0x61, 0x6c] ++ (if t.isAny then [] else frame (tyKey t))
-  | .typ t => [1, 0x74] ++ ekStr [0x54, 0x79, 0x70, 0x65] ++ (if t.isAny then [] else frame (tyKey t))
+  | .opt t => [1, 0x74] ++ ekStr [0x4f, 0x70, 0x74, 0x69, 0x6f, 0x6e, 0x61, 0x6c] ++ wrapParam true t (tyKey t)
+  | .typ t => [1, 0x74] ++ ekStr [0x54, 0x79, 0x70, 0x65] ++ wrapParam false t (tyKey t)
+  | .nul k => [1, 0x74] ++ ekStr (Ty.nul k).name
+  | .bool v => [1, 0x74] ++ ekStr (Ty.bool v).name ++ (match v with | none => [] | some b => ekBool b)
+  | .coll lo hi => [1, 0x74] ++ ekStr (Ty.coll lo hi).name ++ (if lo = 0 ∧ hi = maxInt then [] else sizeParams lo hi)
+  | .un k t => [1, 0x74] ++ ekStr (Ty.un k .any).name ++ wrapParam (k == .notUndef) t (tyKey t)
+  | .strSize lo hi => [1, 0x74] ++ ekStr (Ty.strSize lo hi).name ++ intParams lo hi     -- `t.size.Parameters()`
+  | .strVal v => [1, 0x74] ++ ekStr (Ty.strVal v).name ++ ekStr v                        -- `vcStringType.ToKey`
+  | .rx p => [1, 0x74] ++ ekStr (Ty.rx p).name ++ (if p.isEmpty then [] else frame (rxKey p))
+  | .pattern ps => [1, 0x74] ++ ekStr (Ty.pattern ps).name ++ unorderedParams (ps.map rxKey)
+  | .tref s => [1, 0x74] ++ ekStr (Ty.tref s).name ++ (if s = unresolvedRef then [] else ekStr s)
+  -- `SemVerType.ToKey` (/repo fix 1eb7fb4): the NORMALIZED range, absent for `MatchAll`
+  | .semverT o rs => [1, 0x74] ++ ekStr (Ty.semverT o rs).name ++ (if rangesEq rs matchAllR then [] else ekStr (normStr rs))
 def tyKeys : List Ty → Bytes
   | [] => []
   | t :: ts => frame (tyKey t) ++ tyKeys ts
@@ -258,6 +321,19 @@ def tyEq : Ty → Ty → Bool
       | _ => false
   | .opt t, b => match b with | .opt u => tyEq t u | _ => false
   | .typ t, b => match b with | .typ u => tyEq t u | _ => false
+  | .nul k, b => match b with | .nul k' => k == k' | _ => false
+  | .bool v, b => match b with | .bool v' => v == v' | _ => false
+  | .coll lo hi, b => match b with | .coll lo' hi' => lo == lo' && hi == hi' | _ => false
+  | .un k t, b => match b with | .un k' u => k == k' && tyEq t u | _ => false
+  | .strSize lo hi, b => match b with | .strSize lo' hi' => lo == lo' && hi == hi' | _ => false
+  | .strVal v, b => match b with | .strVal v' => v == v' | _ => false
+  | .rx p, b => match b with | .rx p' => p == p' | _ => false
+  | .pattern ps, b =>
+      match b with
+      | .pattern ps' => ps.length == ps'.length && containsAll ps ps' && containsAll ps' ps
+      | _ => false
+  | .tref s, b => match b with | .tref s' => s == s' | _ => false
+  | .semverT _ rs, b => match b with | .semverT _ rs' => rangesEq rs rs' | _ => false
 termination_by structural a => a
 /-- `b.Equals(a)` (the argument receives the call), by recursion on `a` -/
 def tyEqR : Ty → Ty → Bool
@@ -281,6 +357,19 @@ def tyEqR : Ty → Ty → Bool
       | _ => false
   | .opt t, b => match b with | .opt u => tyEqR t u | _ => false
   | .typ t, b => match b with | .typ u => tyEqR t u | _ => false
+  | .nul k, b => match b with | .nul k' => k' == k | _ => false
+  | .bool v, b => match b with | .bool v' => v' == v | _ => false
+  | .coll lo hi, b => match b with | .coll lo' hi' => lo' == lo && hi' == hi | _ => false
+  | .un k t, b => match b with | .un k' u => k' == k && tyEqR t u | _ => false
+  | .strSize lo hi, b => match b with | .strSize lo' hi' => lo' == lo && hi' == hi | _ => false
+  | .strVal v, b => match b with | .strVal v' => v' == v | _ => false
+  | .rx p, b => match b with | .rx p' => p' == p | _ => false
+  | .pattern ps, b =>
+      match b with
+      | .pattern ps' => ps'.length == ps.length && containsAll ps' ps && containsAll ps ps'
+      | _ => false
+  | .tref s, b => match b with | .tref s' => s' == s | _ => false
+  | .semverT _ rs, b => match b with | .semverT _ rs' => rangesEq rs' rs | _ => false
 termination_by structural a => a
 /-- pointwise `ts[i].Equals(us[i])` (lengths already compared) -/
 def tyEqL : List Ty → List Ty → Bool
@@ -501,6 +590,12 @@ def mkVar : List Ty → Ty
     (ASCII only in the model; the generator keeps to ASCII) -/
 def mkEnum (ci : Bool) (vals : List Bytes) : Ty :=
   if vals.isEmpty then .enum false [] else .enum ci (if ci then vals.map (·.map lowerByte) else vals)
+
+/-- `NewStringType(rng, s)`: a value wins; a negative lower bound is 0; the size `[0, default]` is the default String -/
+def mkStr (lo hi : Int) (s : Bytes) : Ty :=
+  if s.isEmpty then
+    (if (if lo < 0 then 0 else lo) = 0 ∧ hi = maxInt then .str else .strSize (if lo < 0 then 0 else lo) hi)
+  else .strVal s
 
 /-- `newTypedName2`: one leading `::` of the name is dropped -/
 def mkTname (auth ns name : Bytes) : Val := .tname auth ns (trimColons name)
